@@ -63,6 +63,7 @@ func (db *TermDB) num(e *TermEntry, name string) int64 {
 // LoadTermDB runs the init function of every terminal package imported by terminfo/base and terminfo/extended.
 func LoadTermDB(e *Engine, bv bool) *TermDB {
 	ev := e.NewEvaluator(bv, "termdb")
+	ev.C.InitGlobals = true // this evaluation models program start: package variables hold their initial values
 	st := ev.NewState()
 	db := &TermDB{Ev: ev, ByName: map[string]*TermEntry{}}
 	tiPkg := e.SPkgs[modPath+"/terminfo"]
@@ -129,5 +130,6 @@ func LoadTermDB(e *Engine, bv bool) *TermDB {
 		db.ByName[*k.Conc] = te
 	}
 	sort.Slice(db.Entries, func(i, j int) bool { return db.Entries[i].Name < db.Entries[j].Name })
+	ev.C.InitGlobals = false
 	return db
 }
